@@ -95,7 +95,7 @@ func (Scenario) Generate(rng *rand.Rand, focus, tier string) kernel.Plan {
 		case "upderc20":
 			add("upderc20", rng.Int63n(6), rng.Int63n(4))
 		case "param":
-			add("param", rng.Int63n(5), rng.Int63n(13), rng.Int63n(2))
+			add("param", rng.Int63n(5), rng.Int63n(16), rng.Int63n(2))
 		case "convcoin":
 			add("convcoin", rng.Int63n(3), rng.Int63n(7), rng.Int63n(8), rng.Int63n(8))
 		case "converc":
